@@ -1,4 +1,92 @@
-import LecModel
-import LecGen
+/-
+  C16 — No leak, double free or use-after-free over any sequence of API calls.
+
+  Model: the ledger of heap blocks the library holds on behalf of the caller
+  (LecModel.Ledger).  After any history of calls — successful ones, and calls that fail with a
+  documented error —
+  `held_formula`     the blocks held are exactly: the live instance's blocks, plus the k+m fragments
+                     and two pointer arrays of an outstanding encode result, plus one block for an
+                     outstanding decode result (nothing else accumulates);
+  `failures_hold_nothing`
+                     failed creates, encode with bad arguments, decode with too few fragments or
+                     a bad header, reconstruct, fragments_needed and the metadata/validation calls
+                     never change the ledger;
+  `cleanup_releases` encode_cleanup / decode_cleanup release exactly what encode / decode returned;
+  `drained`          from every state, decode_cleanup, encode_cleanup and destroy leave zero
+                     blocks — for every shape.
+  The model has one number per API outcome; that every early-exit path of the C functions frees
+  what it allocated, and that no freed block is touched, is observed, not proved: the same
+  random histories (≤ 300 calls, valid calls mixed with insufficient / invalid fragment sets, bad
+  headers, invalid arguments, unsupported shapes, unaligned buffers, forced checks) run against the
+  real library with an interposed counting allocator (block count after every call compared with
+  the model, double frees counted) and again under ASan + LeakSanitizer.
+-/
+import LecModel.Ledger
 namespace LecProps.C16
+open Lec
+
+/-- states and counts over a whole history. -/
+def finalState (k m tol : Nat) (calls : List Char) : LState :=
+  calls.foldl (ledgerStep k m tol) ⟨false, false, false⟩
+
+theorem held_formula (be k m : Nat) (s : LState) :
+    s.held be k m = (if s.inst then instanceBlocks be else 0) + (if s.enc then ((k + m + 2 : Nat) : Int) else 0) +
+      (if s.out then 1 else 0) := by
+  unfold LState.held; cases s.enc <;> simp
+
+theorem held_nonneg (be k m : Nat) (s : LState) : 0 ≤ s.held be k m := by
+  unfold LState.held instanceBlocks
+  cases s.inst <;> cases s.enc <;> cases s.out <;> simp <;> (repeat' split) <;> omega
+
+theorem failures_hold_nothing (k m tol : Nat) (s : LState) (c : Char)
+    (hc : c ∈ ['X', 'e', 'I', 'B', 'R', 'r', 'N', 'M']) : ledgerStep k m tol s c = s := by
+  simp only [List.mem_cons, List.not_mem_nil, or_false] at hc
+  rcases hc with rfl | rfl | rfl | rfl | rfl | rfl | rfl | rfl <;>
+    simp [ledgerStep, decodeSucceeds]
+
+theorem cleanup_releases (be k m tol : Nat) (s : LState) :
+    (s.enc = true → (ledgerStep k m tol s 'c').held be k m = s.held be k m - ((k + m + 2 : Nat) : Int)) ∧
+    (s.out = true → (ledgerStep k m tol s 'f').held be k m = s.held be k m - 1) := by
+  constructor
+  · intro h
+    simp only [ledgerStep, h, if_true, LState.held, Bool.false_eq_true, if_false]
+    omega
+  · intro h
+    simp only [ledgerStep, h, if_true, LState.held, Bool.false_eq_true, if_false]
+    omega
+
+theorem drained (be k m tol : Nat) (s : LState) :
+    (ledgerStep k m tol (ledgerStep k m tol (ledgerStep k m tol s 'f') 'c') 'D').held be k m = 0 := by
+  obtain ⟨a, b, c⟩ := s
+  cases a <;> cases b <;> cases c <;> simp [ledgerStep, LState.held]
+
+/-- an encode can only be outstanding while an instance is live, so destroy is never blocked by a
+    dangling result: the invariant of every history. -/
+theorem history_invariant (k m tol : Nat) (calls : List Char) :
+    ((finalState k m tol calls).enc = true → (finalState k m tol calls).inst = true) ∧
+    ((finalState k m tol calls).out = true → (finalState k m tol calls).inst = true) := by
+  unfold finalState
+  suffices ∀ s : LState, ((s.enc = true → s.inst = true) ∧ (s.out = true → s.inst = true)) →
+      (((calls.foldl (ledgerStep k m tol) s).enc = true → (calls.foldl (ledgerStep k m tol) s).inst = true) ∧
+       ((calls.foldl (ledgerStep k m tol) s).out = true → (calls.foldl (ledgerStep k m tol) s).inst = true)) from
+    this _ (by simp)
+  induction calls with
+  | nil => intro s h; exact h
+  | cons c cs ih =>
+    intro s h
+    apply ih
+    obtain ⟨a, b, d⟩ := s
+    simp only at h
+    unfold ledgerStep
+    repeat' split
+    all_goals (cases a <;> cases b <;> cases d <;> simp_all)
+
+/-- non-vacuity: a concrete history for flat-XOR (5,5,3). -/
+example : ledgerRun 3 5 5 2 "CESfcD".toList = [3, 15, 16, 15, 3, 0] := by decide
+
+#print axioms held_nonneg
+#print axioms failures_hold_nothing
+#print axioms cleanup_releases
+#print axioms drained
+#print axioms history_invariant
 end LecProps.C16
